@@ -11,7 +11,8 @@
    120 diagnostics: [robust; done; rounds]
    101-106 laws on the Go results (105: realCapability reserves the other queues' guarantees,
        106: the same per sibling group of the hierarchical capacity plugin,
-       107: the real loop finished within rounds_bound rounds) *)
+       107: the real loop finished within rounds_bound rounds,
+       108: two runs differing in map order agree within the 0.1 tolerance) *)
 From Coq Require Import QArith ZArith List Bool.
 From V Require Import Base.Codec C12.Model C12.Laws.
 Import ListNotations.
@@ -171,6 +172,20 @@ Definition entry (sel : Z) (toks : list Z) : list Z :=
   | 107 => match run_dec (let* D := dZ in let* big := dZ in let* r := dZ in let* ws := dList dZ in
                           ret (D, big, r, ws)) toks with
            | Some (D, big, r, ws) => eBool (law_rounds D big r ws) | None => bad_input end
+  | 108 => match run_dec (let* D := dNat in
+                          let* ab := dList (let* da := dRep D dCellS in let* al := dRep D dCellS in
+                                            let* oa := dBool in let* db := dRep D dCellS in
+                                            let* ob := dBool in
+                                            ret (mkO 1 [] [] [] al da oa, mkO 1 [] [] [] al db ob)) in
+                          ret (D, ab)) toks with
+           | Some (D, ab) => eBool (law_runs_agree D ab) | None => bad_input end
+  | 109 => match run_dec (let* D := dNat in
+                          let* ab := dList (let* da := dRep D dCellS in let* al := dRep D dCellS in
+                                            let* oa := dBool in let* db := dRep D dCellS in
+                                            let* ob := dBool in
+                                            ret (mkO 1 [] [] [] al da oa, mkO 1 [] [] [] al db ob)) in
+                          ret (D, ab)) toks with
+           | Some (D, ab) => eBool (law_runs_identical D ab) | None => bad_input end
   | 106 => match run_dec dLawIn toks with
            | Some (D, total, tg, os) => eBool (law_reserve true D total tg os && forallb (fun o =>
                  alldims D (fun j => Qle_bool (val0 (cnth (o_gua o) j)) (val0 (cnth (o_des o) j) + slack))) os)
